@@ -180,6 +180,10 @@ def exhaustive(tier):
     for place in ("root", "nested", "list-item", "ct-list-item"):
         for route in ("load_tree", "loads-json", "loads-yaml", "ctor", "setitem"):
             yield {"mode": "none-item", "place": place, "route": route}
+    for exc in ("key", "runtime", "weird", "lookup", "zero", "assert", "bare", "overflow"):
+        for place in ("root", "nested", "list-item"):
+            for route in ("setattr", "setitem", "ctor", "load_tree", "loads-json"):
+                yield {"mode": "odd-rejection", "exc": exc, "place": place, "route": route}
     for configtype in (False, True):
         for place in ("root", "nested"):
             for where in ("top", "deeper"):
@@ -258,6 +262,83 @@ def _offered_instance_case(case, R):
     got = err.ref_path
     R.check(got == want, "path", site, lambda: "offered item instance with %s unset: error names %r, the offending field is %r" % (bad_field, got, want))
     R.check(str(err).startswith(got), "text", "starts-with-path", lambda: "message %r does not start with the path %r" % (str(err)[:120], got))
+
+
+def _odd_rejection_case(case, R):
+    """Rejections whose underlying exception is neither ValueError nor TypeError: a custom validator that raises KeyError /
+    RuntimeError / AssertionError / an application exception / with no message at all, and an integer beyond the float range."""
+    cc = sandbox._state["cc"]
+    from ..refmodel import WeirdError
+    exc_kind = case["exc"]
+
+    def rule(cfg, value):
+        if value == 7:
+            if exc_kind == "assert":
+                assert value != 7
+            if exc_kind == "bare":
+                raise ValueError
+            raise {"key": KeyError, "runtime": RuntimeError, "weird": WeirdError, "lookup": LookupError, "zero": ZeroDivisionError}[exc_kind]("seven is not allowed")
+        return value
+    schema = cc.Schema()
+    make = (lambda: cc.FloatField()) if exc_kind == "overflow" else (lambda: cc.IntField(validator=rule))
+    bad = 10 ** 400 if exc_kind == "overflow" else 7
+    place = case["place"]
+    if place == "root":
+        schema.f = make()
+        want, tree = "f", {"f": bad}
+    elif place == "nested":
+        schema.a.b.f = make()
+        want, tree = "a.b.f", {"a": {"b": {"f": bad}}}
+    else:
+        item = cc.Schema()
+        item.f = make()
+        item.name = cc.StringField(default="n")
+        schema.rows = cc.ListField(item)
+        want, tree = "rows[1].f", {"rows": [{"name": "a"}, {"name": "b", "f": bad}]}
+    cfg = schema()
+    route = case["route"]
+    R.label("odd-rejection")
+    R.nontrivial = True
+    try:
+        if route == "load_tree":
+            cfg.load_tree(tree)
+        elif route == "loads-json":
+            if exc_kind == "overflow":
+                cfg.loads(('{"f": 1%s}' % ("0" * 400)).encode() if place == "root" else cc.ConfigFormat.get("pickle").dumps(cfg, tree), "json" if place == "root" else "pickle")
+            else:
+                cfg.loads(cc.ConfigFormat.get("json").dumps(cfg, tree), "json")
+        elif route == "ctor":
+            if place != "root":
+                return
+            schema(f=bad)
+        elif route in ("setattr", "setitem"):
+            if place == "list-item":
+                cfg.rows = [{"name": "a"}, {"name": "b"}]
+                if route == "setattr":
+                    cfg.rows[1].f = bad
+                else:
+                    cfg.rows[1]["f"] = bad
+            elif route == "setattr":
+                owner = cfg if place == "root" else cfg.a.b
+                owner.f = bad
+            else:
+                cfg[want] = bad
+        err = None
+    except BaseException as exc:  # AssertionError and friends included
+        err = exc
+    site = "odd-rejection:%s:%s" % (exc_kind, route)
+    if not R.check(err is not None, "must-raise", site, "the rejected value was accepted"):
+        return
+    if not R.check(isinstance(err, cc.ValidationError), "type", site + ":" + type(err).__name__, lambda: "rejection surfaced as %s: %r" % (type(err).__name__, err)):
+        return
+    got = err.ref_path
+    R.check(got == want, "path", site, lambda: "error names %r, the offending field is %r" % (got, want))
+    try:
+        text = str(err)
+    except Exception as exc:
+        R.fail("text", site + ":str-raises", "str(err) raised %r" % (exc,))
+        return
+    R.check(text.startswith(got), "text", "starts-with-path", lambda: "message %r does not start with the path %r" % (text[:120], got))
 
 
 def _none_item_case(case, R):
@@ -388,6 +469,8 @@ def run_case(case, R):
         return _offered_instance_case(case, R)
     if case.get("mode") == "none-item":
         return _none_item_case(case, R)
+    if case.get("mode") == "odd-rejection":
+        return _odd_rejection_case(case, R)
     cc = sandbox._state["cc"]
     spec = case["spec"]
     if case["target"] is None:
